@@ -465,11 +465,31 @@ def run_case(case):
                     store = ArrayStore.from_raw_dict(raw)
                     its = {}  # iterators belong to the old object
                 else:
-                    # direct round trip shares read-only memory: compare observations only
+                    # direct round trip: an equivalent store, on which the rest of the history runs
                     other = ArrayStore.from_raw_dict(raw)
                     a, b = impl_state(store, fields), impl_state(other, fields)
                     if a != b:
                         return Failure("oracle", f"{where}: from_raw_dict(as_raw_dict()) differs: {a} vs {b}")
+                    # ... and an independent one: what is written to it later must not show in the original
+                    old_store, old_state = store, a
+                    store = other
+                    its = {}
+                    probe = [k for k, v in raw.items() if isinstance(v, np.ndarray) and v.flags.writeable and v.size]
+                    if ref_cap > 0:
+                        free = [i for i in range(ref_cap) if i not in ref]
+                        tgt = free[0] if free else next(iter(ref))
+                        try:
+                            store.add(np.array([tgt], dtype=np.int32), make_rows(fields, [999]), {}, [])
+                        except Exception as e:  # pylint: disable=broad-except
+                            return Failure("oracle", f"{where}: the store rebuilt by from_raw_dict(as_raw_dict()) is not "
+                                           f"equivalent: a valid add raised {type(e).__name__}: {e}")
+                        drv.ask(f"add - {tgt}:999")
+                        version[0] += 1
+                        gsizes.append(0 if tgt in ref else 1)
+                        ref[tgt] = 999
+                        if impl_state(old_store, fields) != old_state:
+                            return Failure("oracle", f"{where}: writing to the store rebuilt by from_raw_dict changed the "
+                                           "store it was exported from")
                 drv.ask("raw")
             elif kind == "iternew":
                 its[op["k"]] = [iter(store), 0, version[0], list(ref.items())]
